@@ -388,6 +388,11 @@ class Exec:
         if kind == "hash":
             return self.do_hash(op)
         if kind == "hash2":          # both processes ask at the same time (modelled as two requests in a row)
+            if op[1] == "obj":
+                # with long-lived PersistentCache objects the order in which the two requests get the lock decides
+                # which process memoises the value: not a function of the history, so run them one after the other
+                self.do_hash(["hash", 0, op[1], op[2]])
+                return self.do_hash(["hash", 1 % len(self.workers), op[1], op[2]])
             return self.do_hash(["hash", 0, op[1], op[2]], concurrent=True)
         if kind == "cleanup":
             self.workers[0].call(cmd="cleanup")
@@ -601,7 +606,7 @@ def gen_history(rng):
         if rng.random() < 0.35:
             ops.append(hash_op())
         elif nproc == 2 and rng.random() < 0.12:
-            ops.append(["hash2", rng.choice(["fresh", "obj", "task"]), focus])
+            ops.append(["hash2", rng.choice(["fresh", "task"]), focus])
     ops.append(hash_op())
     if rng.random() < 0.3:
         ops.append(hash_op(any_target()))
